@@ -107,6 +107,9 @@ def step (rs : Regs) (toks : List String) : Regs × String :=
       let x := getR rs i; let y := getR rs j
       if hasOpaque x || hasOpaque y then (rs, "?")
       else if i = j then (rs, "true")   -- `operator==` short-cuts on object identity (`this == &rhs`)
+      -- a value holding a NaN is unequal to itself unless the two objects share the sub-Message
+      -- (identity short-cut again); sharing is not part of the value model, so no prediction then
+      else if !(msgEq x x) || !(msgEq y y) then (rs, "?")
       else (rs, toString (msgEq x y))
     | _, _ => (rs, "bad-op")
   | _ => (rs, "bad-op")
